@@ -160,7 +160,7 @@ Qed.
 Theorem sync_step_total_up_to_sync g w order c :
   Inv g w -> NoTmp w -> sync_step w order = OutOfFragment c ->
   exists w3 e en3, SCtx g w3 e en3 /\ e_ign en3 = INone /\ notmp w3 e /\ maxchg en3 <= now (w_st w3) /\
-                   sync_entry w3 e = OutOfFragment c.
+                   sync_entry w3 e = OutOfFragment c /\ OwnFrame g w w3.
 Proof.
   intros I T H. unfold sync_step in H.
   destruct (cset (w_st w)) as [|c0 cr] eqn:Ecs; [discriminate|]. rewrite <- Ecs in H.
@@ -190,12 +190,13 @@ Proof.
   destruct done; [discriminate|].
   destruct Hres as (en3 & SC3 & Hi3 & Hm3).
   destruct (sync_entry w3 e) as [[w4 cs4]|c'] eqn:Ese; [discriminate|]. cbn [rbind] in H. injection H as <-.
-  exists w3, e, en3. auto 10.
+  exists w3, e, en3. repeat (split; [assumption|]).
+  apply OwnFrame_prov. intros sd. rewrite P3. unfold w2, tick. cbn [fst]. rewrite prov_of_with_st. apply P1.
 Qed.
 
 (* ------------------------------------------------------------------ the leaves of sync(): which OutOfFragment answers are left *)
 (* The proofs replay the preservation proofs of AlgoSyncEntry.v on the hypothesis "the call answers OutOfFragment c". *)
-Definition G_CREATE : list N := [X_CREATE_EXISTS].
+Definition G_CREATE : list N := [].
 
 Lemma verify_parent_root g w t n : Inv g w -> ProvModel.verify_parent (prov_of w t) [root_name t; n] = None.
 Proof.
@@ -203,6 +204,49 @@ Proof.
   destruct (sh_root1 _ _ (i_shape _ _ _ I t)) as (r1 & H1 & L1 & P1 & K1). unfold obj_at in H1.
   pose proof (info_path_live _ 1 r1 W H1 L1) as Hi. rewrite P1 in Hi.
   unfold ProvModel.verify_parent. cbn [removelast]. rewrite Hi. unfold ProvModel.info_of. cbn [ProvModel.i_kind]. rewrite K1. reflexivity.
+Qed.
+
+(* the translated path of a creation is free on the other side: names of user-made objects are unique, every live
+   engine-made object mirrors a user-made one of the same name, and an object has one entry *)
+Lemma target_free g w e en s k ob cs n :
+  SCtx g w e en -> e_ign en = INone -> Uniq g w ->
+  s_oid (gs en s) = Some (ostr_k k) -> obj_at w s k = Some ob -> g_get k (g_of g s) = Some cs ->
+  s_oid (gs en (negb s)) = None -> ProvModel.o_path ob = [root_name s; n] ->
+  ProvModel.info_path (prov_of w (negb s)) [root_name (negb s); n] = None.
+Proof.
+  intros SC Hign U Ho Hob Hg Hot Hp.
+  pose proof (sc_inv _ _ _ _ SC) as I. pose proof (sc_en _ _ _ _ SC) as Hn. pose proof (sc_e _ _ _ _ SC) as He.
+  set (t := negb s) in *.
+  apply (info_path_none _ _ (i_pwf _ _ _ I t)). intros m om Hm Hl Hq.
+  destruct m as [|[|m]].
+  - destruct (sh_root0 _ _ (i_shape _ _ _ I t)) as (r0 & H0 & _ & P0 & _). unfold obj_at in H0. assert (om = r0) by congruence. subst om. rewrite P0 in Hq. discriminate.
+  - destruct (sh_root1 _ _ (i_shape _ _ _ I t)) as (r1 & H1 & _ & P1 & _). unfold obj_at in H1. assert (om = r1) by congruence. subst om. rewrite P1 in Hq. discriminate.
+  - set (m2 := S (S m)) in *. assert (Hm2: (2 <= m2)%nat) by (unfold m2; lia).
+    assert (Hlf: leaf (ProvModel.o_path om) = leaf (ProvModel.o_path ob)) by (rewrite Hq, Hp; reflexivity).
+    destruct (opt_dec (g_get m2 (g_of g t))) as [(c1 & Eg)|Eg].
+    + destruct (U t m2 c1 s k cs om ob Eg Hg Hm Hob Hlf) as (X & _). unfold t in X. destruct s; discriminate.
+    + assert (Hlt: (m2 < length (ProvModel.p_heap (prov_of w t)))%nat) by (apply nth_error_Some; congruence).
+      destruct (i_cove _ _ _ I t m2 Hm2 Hlt Eg) as (x & xn & Hxn & Hox).
+      assert (Hx2: (2 <= x)%nat) by (apply (entry_ge2 _ _ _ _ _ _ _ I Hxn Hox Hm2)).
+      pose proof (i_ents _ _ _ I x xn Hx2 Hxn) as EOx.
+      destruct (so_full _ _ _ _ _ _ (eo_side _ _ _ _ _ EOx t) _ Hox) as (k1 & ob1 & Hk1 & Hob1 & _ & FOx).
+      apply ostr_k_inj in Hk1. subst k1. assert (ob1 = om) by (unfold obj_at in Hob1; congruence). subst ob1.
+      assert (Hnd: is_discarded (e_ign xn) = false).
+      { destruct (is_discarded (e_ign xn)) eqn:Ed; [|reflexivity]. rewrite (fo_disc _ _ _ _ _ _ _ _ FOx Ed) in Hl. discriminate. }
+      destruct (fo_mirror _ _ _ _ _ _ _ _ FOx Hnd Eg) as (_ & _ & _ & _ & _ & _ & (k'' & ob'' & G1 & G2 & G3 & G4)).
+      assert (Hts: negb t = s) by (unfold t; apply negb_involutive). rewrite Hts in G1, G2, G4.
+      destruct (opt_dec (g_get k'' (g_of g s))) as [(c2 & Eg2)|Eg2]; [|contradiction].
+      assert (Hlf2: leaf (ProvModel.o_path ob'') = leaf (ProvModel.o_path ob)) by congruence.
+      destruct (U s k'' c2 s k cs ob'' ob Eg2 Hg G2 Hob Hlf2) as (_ & Hkk). subst k''.
+      assert (x = e) by (apply (idx_unique_ent _ s _ x e xn en (i_idx _ _ _ I) Hxn G1 Hn Ho)). subst x.
+      assert (xn = en) by congruence. subst xn. fold t in Hot. congruence.
+Qed.
+
+Lemma create_ok p q d : PWF p -> ProvModel.verify_parent p q = None -> ProvModel.info_path p q = None ->
+  exists pv i, ProvModel.create p q d = (pv, ProvModel.Ok i).
+Proof.
+  intros W Hvp Hi. unfold ProvModel.create. rewrite (no_forbidden _ q (pw_noforbid p W)), Hi, Hvp.
+  destruct (ProvModel.alloc p q ProvModel.KFile d). eauto.
 Qed.
 
 (* create() on a well-formed id-style provider whose parent folder exists can only refuse with "exists" *)
@@ -215,7 +259,7 @@ Qed.
 Definition G_DELETE : list N := [X_DELETE_OTHER].
 
 Lemma create_total g w e en s k ob cs n c :
-  SCtx g w e en -> e_ign en = INone ->
+  Uniq g w -> SCtx g w e en -> e_ign en = INone ->
   s_oid (gs en s) = Some (ostr_k k) -> obj_at w s k = Some ob -> ProvModel.o_exists ob = true ->
   g_get k (g_of g s) = Some cs -> s_oid (gs en (negb s)) = None ->
   ProvModel.o_path ob = [root_name s; n] -> name_ok n = true ->
@@ -225,7 +269,7 @@ Lemma create_total g w e en s k ob cs n c :
                 (pstr [root_name (negb s); n]) = OutOfFragment c ->
   In c G_CREATE.
 Proof.
-  intros [I He Hn Hr] Hign Ho Hob Hl Hg Hot Hpath Hnok Hsp Hc Htf H.
+  intros HU HSC. pose proof HSC as HSC'. revert HSC. intros [I He Hn Hr] Hign Ho Hob Hl Hg Hot Hpath Hnok Hsp Hc Htf H.
   set (t := negb s) in *. set (p := [root_name t; n]).
   pose proof (i_cfg _ _ _ I) as Hcfg. pose proof (i_ents _ _ _ I e en He Hn) as EO.
   destruct (tname_world_facts w e s en (pstr [root_name s; n]) Htf) as (TA & TB & TC & TD & TF & TG & TH).
@@ -242,7 +286,9 @@ Proof.
   fold t in H. rewrite Hsp2 in H. rewrite (H1prov t) in H.
   pose proof (i_pwf _ _ _ I t) as HWt.
   destruct (ProvModel.create (prov_of w t) p (ProvModel.o_data ob)) as [pv r] eqn:Ecr.
-  destruct r as [i|er]; [|rewrite (create_err _ _ _ _ _ HWt (verify_parent_root g w t n I) Ecr) in H; injection H as <-; left; reflexivity].
+  destruct r as [i|er].
+  2:{ exfalso. destruct (create_ok (prov_of w t) p (ProvModel.o_data ob) HWt (verify_parent_root g w t n I)
+                          (target_free g w e en s k ob cs n HSC' Hign HU Ho Hob Hg Hot Hpath)) as (pv' & i' & X). rewrite X in Ecr. discriminate. }
   destruct (create_inv _ _ _ _ _ HWt Ecr) as (Hi & Hheap & Hlog & Hcur & Hpcfg & HWv).
   set (k' := length (ProvModel.p_heap (prov_of w t))) in *.
   set (o' := new_obj (prov_of w t) p ProvModel.KFile (ProvModel.o_data ob)) in *.
@@ -499,7 +545,7 @@ Qed.
 
 (* ------------------------------------------------------------------ SyncManager.sync: the OutOfFragment answers that are left *)
 Definition G_EMBRACE : list N :=
-  [X_IRRELEVANT; X_LEVEL + 3; X_MISSING; X_HASHDIFF_GONE; X_PEERS; X_DELETE_OTHER; X_CREATE_EXISTS].
+  [X_IRRELEVANT; X_LEVEL + 3; X_MISSING; X_HASHDIFF_GONE; X_PEERS; X_DELETE_OTHER].
 Definition G_SYNC : list N := G_EMBRACE.
 
 Ltac oof_code E :=
@@ -537,11 +583,11 @@ Proof.
 Qed.
 
 Lemma creation_total g w e en s c :
-  SCtx g w e en -> e_ign en = INone -> needs_sync (cfg_std 1) s (gs en s) = true ->
+  Uniq g w -> SCtx g w e en -> e_ign en = INone -> needs_sync (cfg_std 1) s (gs en s) = true ->
   notmp w e -> is_creation (cfg_std 1) en s = true ->
   handle_path_change_or_creation w e s = OutOfFragment c -> In c (X_PEERS :: G_CREATE).
 Proof.
-  intros SC Hign Hns Htmp Hcr H.
+  intros U SC Hign Hns Htmp Hcr H.
   pose proof (sc_inv _ _ _ _ SC) as I. pose proof (sc_en _ _ _ _ SC) as Hn. pose proof (sc_e _ _ _ _ SC) as He.
   pose proof (i_ents _ _ _ I e en He Hn) as EO.
   destruct (needs_sync_parts g w e en SC s Hns) as (Hc & o & Ho).
@@ -564,7 +610,7 @@ Proof.
   destruct (ProvModel.o_exists ob) eqn:El.
   - rewrite (download_live w e s en _ k ob (i_cfg _ _ _ I) (i_pwf _ _ _ I s) (Htmp s) Hn Hps Ho Hob El Hkf) in H.
     cbn [rbind negb] in H.
-    apply (create_total g w e en s k ob csg n c SC Hign Ho Hob El Hg Hyn Hp Hnok Hps Hc (Htmp s) H).
+    apply (create_total g w e en s k ob csg n c U SC Hign Ho Hob El Hg Hyn Hp Hnok Hps Hc (Htmp s) H).
   - destruct (download_dead w e s en _ k ob (i_cfg _ _ _ I) (i_tape _ _ _ I) (i_pwf _ _ _ I s) (Htmp s) Hn Hps Ho Hob El Hkf) as (w2 & Ed & We).
     rewrite Ed in H. cbn [rbind negb] in H. discriminate.
 Qed.
@@ -573,11 +619,11 @@ Lemma In_embrace_of l c : In c l -> (forall x, In x l -> In x G_EMBRACE) -> In c
 Proof. auto. Qed.
 
 Lemma embrace_total g w e en s c :
-  SCtx g w e en -> e_ign en = INone -> needs_sync (cfg_std 1) s (gs en s) = true ->
+  Uniq g w -> SCtx g w e en -> e_ign en = INone -> needs_sync (cfg_std 1) s (gs en s) = true ->
   notmp w e -> maxchg en <= now (w_st w) ->
   embrace_change w e s = OutOfFragment c -> In c G_EMBRACE.
 Proof.
-  intros SC Hign Hns Htmp Hmax H.
+  intros U SC Hign Hns Htmp Hmax H.
   pose proof (sc_inv _ _ _ _ SC) as I. pose proof (sc_en _ _ _ _ SC) as Hn. pose proof (sc_e _ _ _ _ SC) as He.
   pose proof (i_ents _ _ _ I e en He Hn) as EO.
   destruct (needs_sync_parts g w e en SC s Hns) as (Hc & o & Ho).
@@ -619,7 +665,7 @@ Proof.
         -- cbn [rbind] in H. discriminate.
         -- destruct Hres.
       * cbn [rbind] in H. injection H as <-.
-        pose proof (creation_total g w e en s c0 SC Hign Hns Htmp Ecr Eh) as X. unfold G_CREATE, G_EMBRACE in *. cbn in *. intuition.
+        pose proof (creation_total g w e en s c0 U SC Hign Hns Htmp Ecr Eh) as X. unfold G_CREATE, G_EMBRACE in *. cbn in *. intuition.
     + cbn [rbind] in H. unfold get_e, lift, get_ent in H. rewrite Hn in H. cbn [rbind] in H.
       destruct (oN_eqb (s_hash (gs en s)) (s_shash (gs en s))) eqn:Eh; cbn [negb] in H; [discriminate|].
       destruct (handle_hash_diff w e s) as [[[w2 cs2] rs2]|c0] eqn:Ed; [cbn [rbind] in H; discriminate|].
@@ -638,10 +684,10 @@ Lemma In_sync_of_embrace c : In c G_EMBRACE -> In c G_SYNC.
 Proof. intros H. exact H. Qed.
 
 Lemma sync_side_total g w e en s c :
-  SCtx g w e en -> e_ign en = INone -> notmp w e -> maxchg en <= now (w_st w) ->
+  Uniq g w -> SCtx g w e en -> e_ign en = INone -> notmp w e -> maxchg en <= now (w_st w) ->
   sync_side w e s = OutOfFragment c -> In c G_SYNC.
 Proof.
-  intros SC Hign Htmp Hmax H.
+  intros U SC Hign Htmp Hmax H.
   pose proof (sc_inv _ _ _ _ SC) as I. pose proof (sc_en _ _ _ _ SC) as Hn. pose proof (sc_e _ _ _ _ SC) as He.
   pose proof (i_ents _ _ _ I e en He Hn) as EO.
   unfold sync_side in H. unfold get_e, lift, get_ent in H. rewrite Hn in H. cbn [rbind] in H.
@@ -663,14 +709,14 @@ Proof.
     + destruct (finished_total g w1 e en1 s (sc_inv _ _ _ _ SC1) He (sc_en _ _ _ _ SC1)) as (wa & Ef). rewrite Ef in H. cbn [rbind] in H. discriminate.
     + destruct (punt_total g w1 e en1 (sc_inv _ _ _ _ SC1) (sc_en _ _ _ _ SC1)) as (wa & Ep). rewrite Ep in H. cbn [rbind] in H. discriminate.
     + destruct Hres.
-  - cbn [rbind] in H. injection H as <-. apply In_sync_of_embrace. apply (embrace_total g w e en s c0 SC Hign Hns Htmp Hmax Ee).
+  - cbn [rbind] in H. injection H as <-. apply In_sync_of_embrace. apply (embrace_total g w e en s c0 U SC Hign Hns Htmp Hmax Ee).
 Qed.
 
 Lemma sync_entry_total g w e en c :
-  SCtx g w e en -> e_ign en = INone -> notmp w e -> maxchg en <= now (w_st w) ->
+  Uniq g w -> SCtx g w e en -> e_ign en = INone -> notmp w e -> maxchg en <= now (w_st w) ->
   sync_entry w e = OutOfFragment c -> In c G_SYNC.
 Proof.
-  intros SC Hign Htmp Hmax H.
+  intros U SC Hign Htmp Hmax H.
   pose proof (sc_en _ _ _ _ SC) as Hn.
   unfold sync_entry in H. unfold get_e, lift, get_ent in H. rewrite Hn in H. cbn [rbind] in H.
   rewrite (i_cfg _ _ _ (sc_inv _ _ _ _ SC)), (split_guard_false g w e en false SC Hign), (split_guard_false g w e en true SC Hign) in H.
@@ -682,21 +728,22 @@ Proof.
     destruct f1; [|discriminate].
     destruct Hres1 as (en1 & SC1 & Hi1 & Hm1).
     destruct (sync_side w1 e (negb first)) as [[[w2 cs2] f2]|c1] eqn:E2; [cbn [rbind] in H; discriminate|].
-    cbn [rbind] in H. injection H as <-. apply (sync_side_total g w1 e en1 (negb first) c1 SC1 Hi1 Ht1 Hm1 E2).
-  - cbn [rbind] in H. injection H as <-. apply (sync_side_total g w e en first c0 SC Hign Htmp Hmax E1).
+    cbn [rbind] in H. injection H as <-. apply (sync_side_total g w1 e en1 (negb first) c1 (Uniq_frame g w w1 Hown1 U) SC1 Hi1 Ht1 Hm1 E2).
+  - cbn [rbind] in H. injection H as <-. apply (sync_side_total g w e en first c0 U SC Hign Htmp Hmax E1).
 Qed.
 
 (* one engine step leaves the fragment only with one of the guard codes of G_SYNC *)
 Theorem engine_step_guards g w a c :
-  Inv g w -> NoTmp w -> algo_step w a = OutOfFragment c -> In c G_SYNC.
+  Inv g w -> NoTmp w -> Uniq g w -> algo_step w a = OutOfFragment c -> In c G_SYNC.
 Proof.
-  intros I T H. destruct a as [sd o|sd clk|order clk].
+  intros I T U H. destruct a as [sd o|sd clk|order clk].
   - simpl in H. discriminate.
   - simpl in H. destruct (intake_total g (at_clock w clk) sd (Inv_at_clock g w clk I)) as (w1 & E). rewrite E in H. cbn [rbind] in H. discriminate.
   - simpl in H.
-    destruct (sync_step_total_up_to_sync g (at_clock w clk) order c (Inv_at_clock g w clk I)) with (2 := H) as (w3 & e & en3 & SC3 & Hi3 & Ht3 & Hm3 & Ese).
+    destruct (sync_step_total_up_to_sync g (at_clock w clk) order c (Inv_at_clock g w clk I)) with (2 := H) as (w3 & e & en3 & SC3 & Hi3 & Ht3 & Hm3 & Ese & O3).
     { intros x sd0. apply T. }
-    apply (sync_entry_total g w3 e en3 c SC3 Hi3 Ht3 Hm3 Ese).
+    apply (sync_entry_total g w3 e en3 c) with (2 := SC3); auto.
+    apply (Uniq_frame g (at_clock w clk) w3 O3). intros sd k cs sd' k' cs' ob ob' A B C D0 E0. apply (U sd k cs sd' k' cs' ob ob' A B); auto.
 Qed.
 
 (* whole runs: an in-domain run under any schedule either goes through (ROk) or stops with one of the guard codes *)
@@ -708,7 +755,7 @@ Proof.
   induction acts as [|a r IH]; intros used lvL lvR g w c I T D HF H.
   - simpl in H. discriminate.
   - simpl in H. destruct (algo_step w a) as [[w1 cs1]|c0] eqn:Es.
-    2:{ cbn [rbind] in H. injection H as <-. apply (engine_step_guards g w a c0 I T Es). }
+    2:{ cbn [rbind] in H. injection H as <-. apply (engine_step_guards g w a c0 I T (d_uniq _ _ _ _ _ D) Es). }
     cbn [rbind] in H.
     destruct a as [sd o|sd clk|order clk].
     + simpl in Es. injection Es as <- <-. change (history_of (AUser sd o :: r)) with ((sd, o) :: history_of r) in HF.
